@@ -32,15 +32,15 @@ open OpenFGAVerif.Model.Token (serialize deserialize b64encode b64decode)
 /-! ## Ties: the paging code the model mirrors, fragment by fragment -/
 
 theorem tie_memReadTail : Gen.Paging.memReadTail =
-    ["var err error", "var from int", "if options != nil && options.Pagination.From != \"\" { from, err = strconv.Atoi(options.Pagination.From) if err != nil { telemetry.TraceError(span, err) return nil, err } }", "if from < 0 || from > len(matches) { return nil, storage.ErrInvalidContinuationToken }", "matches = matches[from:]", "to := 0", "if options != nil { to = options.Pagination.PageSize }", "if to != 0 && to < len(matches) { return &staticIterator{records: matches[:to], continuationToken: strconv.Itoa(from + to)}, nil }", "return &staticIterator{records: matches}, nil"] := by
+    ["var err error", "var from int", "if options != nil && options.Pagination.From != \"\" { from, err = strconv.Atoi(options.Pagination.From) if err != nil { telemetry.TraceError(span, err) return nil, storage.ErrInvalidContinuationToken } }", "if from < 0 || from > len(matches) { return nil, storage.ErrInvalidContinuationToken }", "matches = matches[from:]", "to := 0", "if options != nil { to = options.Pagination.PageSize }", "if to != 0 && to < len(matches) { return &staticIterator{records: matches[:to], continuationToken: strconv.Itoa(from + to)}, nil }", "return &staticIterator{records: matches}, nil"] := by
   rfl
 
 theorem tie_memModelsPaging : Gen.Paging.memModelsPaging =
-    ["sort.Slice(models, func(i, j int) bool { return models[i].GetId() > models[j].GetId() })", "var from int", "continuationToken := \"\"", "pageSize := storage.DefaultPageSize", "if options.Pagination.PageSize > 0 { pageSize = options.Pagination.PageSize }", "if options.Pagination.From != \"\" { from, err = strconv.Atoi(options.Pagination.From) if err != nil { return nil, \"\", err } }", "from = max(0, min(from, len(models)))", "to := min(len(models), from+pageSize)", "res := models[from:to]", "if to != len(models) { continuationToken = strconv.Itoa(to) }", "return res, continuationToken, nil"] := by
+    ["sort.Slice(models, func(i, j int) bool { return models[i].GetId() > models[j].GetId() })", "var from int", "continuationToken := \"\"", "pageSize := storage.DefaultPageSize", "if options.Pagination.PageSize > 0 { pageSize = options.Pagination.PageSize }", "if options.Pagination.From != \"\" { from, err = strconv.Atoi(options.Pagination.From) if err != nil { return nil, \"\", storage.ErrInvalidContinuationToken } }", "from = max(0, min(from, len(models)))", "to := min(len(models), from+pageSize)", "res := models[from:to]", "if to != len(models) { continuationToken = strconv.Itoa(to) }", "return res, continuationToken, nil"] := by
   rfl
 
 theorem tie_memStoresPaging : Gen.Paging.memStoresPaging =
-    ["stores := make([]*openfgav1.Store, 0, len(s.stores))", "sort.SliceStable(stores, func(i, j int) bool { return stores[i].GetId() < stores[j].GetId() })", "var from int", "if options.Pagination.From != \"\" { from, err = strconv.Atoi(options.Pagination.From) if err != nil { return nil, \"\", err } }", "pageSize := storage.DefaultPageSize", "if options.Pagination.PageSize > 0 { pageSize = options.Pagination.PageSize }", "from = max(0, min(len(stores), from))", "to := min(len(stores), from+pageSize)", "res := stores[from:to]", "continuationToken := \"\"", "if to != len(stores) { continuationToken = strconv.Itoa(to) }", "return res, continuationToken, nil"] := by
+    ["stores := make([]*openfgav1.Store, 0, len(s.stores))", "sort.SliceStable(stores, func(i, j int) bool { return stores[i].GetId() < stores[j].GetId() })", "var from int", "if options.Pagination.From != \"\" { from, err = strconv.Atoi(options.Pagination.From) if err != nil { return nil, \"\", storage.ErrInvalidContinuationToken } }", "pageSize := storage.DefaultPageSize", "if options.Pagination.PageSize > 0 { pageSize = options.Pagination.PageSize }", "from = max(0, min(len(stores), from))", "to := min(len(stores), from+pageSize)", "res := stores[from:to]", "continuationToken := \"\"", "if to != len(stores) { continuationToken = strconv.Itoa(to) }", "return res, continuationToken, nil"] := by
   rfl
 
 theorem tie_memChangesFromCmp : Gen.Paging.memChangesFromCmp =
